@@ -87,7 +87,16 @@ def gen_case(r):
         x = r.random()
         sender = 0 if role[0] == "tx" else 1
         recv = 1 - sender
-        if x < 0.5 and pending[recv] < 3:
+        if x < 0.12 and pending[recv] == 0:
+            # the streaming idiom: fill the TX FIFO with CE low, then start transmitting
+            ops += [("select", sender), ("ce_pin=", False)]
+            for _ in range(r.choice([1, 2, 3, 4, 4, 5])):
+                n = r.randrange(1, 33) if dyn else r.choice([1, L, 32, 33, r.randrange(1, 41)])
+                pl = bytes(r.randrange(256) for _ in range(n))
+                ops.append(("write", bytearray(pl) if r.random() < 0.5 else pl, noack, True))
+            ops += [("ce_pin=", True), ("update",), ("ce_pin=", False)]
+            pending[recv] = 3            # at most: the FIFO has three levels
+        elif x < 0.5 and pending[recv] < 3:
             n = r.choice([0, 1, 2, 5, L, 31, 32, 33, 40, r.randrange(0, 41)])
             pl = bytes(r.randrange(256) for _ in range(n))
             pl = bytearray(pl) if r.random() < 0.5 else pl
@@ -176,6 +185,23 @@ class Checker:
             if [b for (_p, b) in fifo] != exp or any(p != m["rpipe"][peer] for (p, _b) in fifo):
                 return ("C01/peer-fifo-differs-from-what-was-sent",
                         "peer RX FIFO %s, expected %s on pipe %s" % ([(p, b.hex()) for p, b in fifo], [e.hex() for e in exp], m["rpipe"][peer]))
+        elif name == "write":
+            exp = self.expect[peer]
+            if bytes(R.LAST_ARGS[0]) != bytes(op[1]) or type(R.LAST_ARGS[0]) is not type(op[1]):
+                return ("C01/caller-buffer-modified", "%s of %d bytes after write()" % (type(op[1]).__name__, len(op[1])))
+            if res[0] != 0:
+                return ("C01/write-raised", "result %s for a %d-byte payload" % (res, len(op[1])))
+            if res[1]:          # accepted: it has to come out of the peer's read(), once, in order
+                exp.append(norm(op[1], m["dyn"], m["L"]))
+                self.burst = getattr(self, "burst", 0) + 1
+        elif name == "ce_pin=" and op[1] and getattr(self, "burst", 0):
+            self.burst = 0
+            exp = self.expect[peer]
+            fifo = snaps[peer]["rx"]
+            if [b for (_p, b) in fifo] != exp or any(p != m["rpipe"][peer] for (p, _b) in fifo):
+                return ("C01/peer-fifo-differs-from-what-was-sent",
+                        "after a write(write_only=True) burst: peer RX FIFO %s, write() accepted %s" %
+                        ([(p, b.hex()) for p, b in fifo], [e.hex() for e in exp]))
         elif name in ("available", "pipe", "any", "read"):
             exp = self.expect[cur]
             if name == "available":
@@ -209,7 +235,7 @@ def run(rep, model, tier, seed):
     for _ in range(n):
         ops, meta = gen_case(r)
         R.check_cases(rep, model, [ops], "random", [True, True], [0, 1], make_rf24, lambda: Checker(meta),
-                      lambda o: any(x[0] in ("send", "send_list") for x in o))
+                      lambda o: any(x[0] in ("send", "send_list", "write") for x in o))
         rep.count("rx pipe %d" % meta["rpipe"][1])
         rep.count("ping-pong" if meta["both"] else "one-way")
         rep.count("dynamic" if meta["dyn"] else "static")
